@@ -246,7 +246,7 @@ theorem walk_ups_n : ∀ (n : Nat) (cb bs : List Text), bs.length = n → DotFre
       unfold listSymPush
       simp only [show (segDotDot == segDot) = false by decide, Bool.false_eq_true, if_false,
         show (segDotDot == segDotDot) = true by decide, if_true]
-      rw [listPop_dotFree df, List.dropLast_append_of_ne_nil hne]
+      rw [ite_lone_dot df, listPop_dotFree df, List.dropLast_append_of_ne_nil hne]
     rw [hpop]
     apply ih cb bs.dropLast (by simp [hl])
     refine ⟨fun h => df.1 ?_, fun h => df.2 ?_⟩
